@@ -35,8 +35,8 @@ RULE = (
     "or a designated zero-length corner case, covered separately under 'corner')."
 )
 VARIANTS = {"quick": ["plain", "asan"], "thorough": ["plain", "asan"]}
-BUDGET = {"quick": dict(cases=320000, seconds=120), "thorough": dict(cases=6000000, seconds=1100)}
-MIN_NONTRIVIAL = {"quick": 60000, "thorough": 500000}
+BUDGET = {"quick": dict(cases=480000, seconds=150), "thorough": dict(cases=4000000, seconds=1100)}
+MIN_NONTRIVIAL = {"quick": 100000, "thorough": 1000000}
 ASSUMPTIONS = [
     "the Python definition in kernel-specification.yml is the specification; for the 30 kernels whose YAML says "
     "'Insert Python definition here' a harness-written reference (kernel_overrides.HARNESS_DEFINITIONS) or only the "
